@@ -8,8 +8,10 @@ Bounded exhaustive product (shape P of DESIGN.md) executed on the real parser, t
    nested Any value), accepted through parse_object (and argv where the spelling is direct), dumped in yaml / json /
    json_indented with nulls kept and re-parsed with the same parser;
 2. typed layer (c01_typed.py): type grammar x accepted values x defaults x parser shapes (flat, nested group,
-   dataclass, Optional/List of dataclass, class-typed argument, two-level subcommands, link, inner parser with a
-   sub-config file) x {dump x 3 formats x skip_default, --print_config[=flags] -> --config, save -> parse_path}.
+   dataclass, Optional/List/Dict of dataclass, class-typed argument - the spec as the value, as a Union member, as a
+   list item, as a dict value, inside Any; with init_args, with dict_kwargs only, with both -, two-level subcommands,
+   link, inner parser with a sub-config file) x {dump x 3 formats x skip_default, dump without validation,
+   --print_config[=flags] -> --config, save single-file and multi-file (the default) with nulls kept -> parse_path}.
 
 Oracle: typed equality (value and exact type at every level, nan == nan, sets as sets) of the re-parsed
 configuration with the original after removing metadata keys and the config-file bookkeeping key.
@@ -42,8 +44,8 @@ META = {
     "values x defaults x parser shapes x serialisation channels; differential round-trip oracle with typed equality",
     "level_text": "Every member of the stated finite space is executed on the unmodified implementation: each "
     "accepted configuration is serialised through every channel the statement names (dump in three formats with "
-    "nulls kept, skip_default, --print_config with each flag fed back through --config, save followed by "
-    "parse_path) and re-parsed with the same parser; the result must be typed-equal to the original. The token "
+    "nulls kept, with and without validation, skip_default, --print_config with each flag fed back through --config, "
+    "single-file and multi-file save followed by parse_path) and re-parsed with the same parser; the result must be typed-equal to the original. The token "
     "alphabet is derived from the implicit-resolver tables of both YAML components, and a vacuity guard requires "
     "that every alternative of every resolver pattern is matched by an enumerated string, so the bound covers "
     "each way a plain scalar can be taken for a non-string. The verdict is exhaustive within the bounds.",
